@@ -886,7 +886,8 @@ where
                 data_section.extend_from_slice(&submesh_data);
             }
 
-            current_offset += (self.submeshes.len() * 40) as u32; // Each submesh is 40 bytes
+            // Each submesh is 48 bytes (what SkinSubmesh::write emits and the parser reads)
+            current_offset += (self.submeshes.len() * 48) as u32;
             submeshes
         } else {
             M2Array::new(0, 0)
